@@ -385,16 +385,6 @@ Eval(n, root, at) ==
                      ELSE IF d.v.t # "arr" THEN AnyR
                      ELSE LET r == SortBy(d.v.v, n.a[2]) IN
                           IF r.k # "ok" THEN r ELSE Ok(r.v, d.root, d.at)
-           [] f \in Specified ->
-                \* strict functions; the short-circuiting ones (and, or, equal, neq, lt, ...) may skip arguments, so a
-                \* plan whose skipped argument would mutate or fail is "any" (the descriptions do not fix the order)
-                LET e == EvalList(n.a, root, at, <<>>) IN
-                IF e.k = "any" THEN AnyR
-                ELSE IF e.k = "err" THEN (IF f \in {"and", "or", "equal", "neq", "lt", "lte", "gt", "gte"} THEN AnyR ELSE ErrR)
-                ELSE IF f \in {"and", "or", "equal", "neq", "lt", "lte", "gt", "gte"} /\ \E j \in 1..Len(n.a) : HasMut(n.a[j]) THEN AnyR
-                ELSE IF \E j \in 1..Len(e.vs) : e.vs[j].t \notin ValueTags THEN AnyR
-                ELSE LET r == Apply(f, e.vs) IN
-                     IF r.k # "ok" THEN r ELSE Ok(r.v, e.root, e.at)
            \* each: the description string is just "Each .": the semantics is the one the package's own examples/tests show:
            \* [each list fn key?]: for every element, in order, fn is evaluated with a FRESH local context @ = {src: element}
            \* (nothing else in it); the result is the list of the values found under key (default "asm") afterwards.
@@ -422,6 +412,16 @@ Eval(n, root, at) ==
                          it == Iter(1, kk.root, kk.at.al, <<>>) IN
                      IF it.k # "ok" THEN [k |-> it.k]
                      ELSE Ok(Arr(it.vs), it.root, [kk.at EXCEPT !.al = it.al])
+           [] f \in Specified ->
+                \* strict functions; the short-circuiting ones (and, or, equal, neq, lt, ...) may skip arguments, so a
+                \* plan whose skipped argument would mutate or fail is "any" (the descriptions do not fix the order)
+                LET e == EvalList(n.a, root, at, <<>>) IN
+                IF e.k = "any" THEN AnyR
+                ELSE IF e.k = "err" THEN (IF f \in {"and", "or", "equal", "neq", "lt", "lte", "gt", "gte"} THEN AnyR ELSE ErrR)
+                ELSE IF f \in {"and", "or", "equal", "neq", "lt", "lte", "gt", "gte"} /\ \E j \in 1..Len(n.a) : HasMut(n.a[j]) THEN AnyR
+                ELSE IF \E j \in 1..Len(e.vs) : e.vs[j].t \notin ValueTags THEN AnyR
+                ELSE LET r == Apply(f, e.vs) IN
+                     IF r.k # "ok" THEN r ELSE Ok(r.v, e.root, e.at)
            [] OTHER -> AnyR      \* Opaque(fn)
     [] OTHER -> AnyR
 
